@@ -500,6 +500,9 @@ class FatPath:
                 else:
                     raise
             parent._must_be_dir()
+            # Refuse a name that cannot be stored (too long, not encodable)
+            # before anything is allocated or written
+            parent._index._get_names(self.name)
 
             date, time, cs = encode_timestamp(dt.datetime.now(tz=fs.tz))
             cluster = next(fs.fat.free())
